@@ -311,3 +311,30 @@ func vpSeeAllValues(b *board.Board, from, to int, promo Piece) []int {
 	}
 	return out
 }
+
+// VpH_C18_sparse: the same obligation on a sparse class of positions so that deep exchanges close: both kings on the
+// driver's squares, only the squares of the driver's mask may hold other pieces (arbitrary piece and colour each),
+// every other square empty. Exchanges of up to maxcap captures after the initial move.
+func VpH_C18_sparse() {
+	stm := Color(vp.Param("stm"))
+	from, to, promo := vp.Param("from"), vp.Param("to"), Piece(vp.Param("promo"))
+	b := board.VpSymBoardSparse(stm, vp.Param("wk"), vp.Param("bk"), vp.Param("mask"))
+	vp.Assume(board.VpValid(b))
+	vp.Assume(board.VpLegal(b, from, to, promo))
+	th := Score(vp.I16("threshold"))
+	vp.Assume(th >= -3000 && th <= 3000)
+	want, bounded := VpSeeSpec(b, from, to, promo, vp.Param("maxcap"))
+	vp.Assume(bounded)
+	m := board.VpMove(from, to, promo)
+	got := SEE(b, m, th)
+	agrees := got == (want >= int(th))
+	if !agrees && vp.Native() {
+		for _, v := range vpSeeAllValues(b, from, to, promo) {
+			if got == (v >= int(th)) {
+				agrees = true
+			}
+		}
+	}
+	vp.Assert(agrees, "see-answers-true-iff-exchange-value-reaches-threshold")
+	vp.Cover("end")
+}
